@@ -32,6 +32,8 @@ def check_life(lay, h, life, res, want_timing=True):
     out = []
     exp = R.loop_model(lay, h)
     P = lay["p_us"]
+    if life.extra.get("nudges"):
+        out.append(("loop-overslept", f"history {h!r}: the robot thread stayed silent for {R.NUDGE_AFTER:.0f} s after the clock had reached the programmed alarm; the harness had to move the clock further {life.extra['nudges']} time(s) before the loop went on"))
     if life.end is None or life.end[0] != "exit":
         out.append(("robot-did-not-exit-cleanly", f"end event {life.end!r}"))
         return out
